@@ -134,6 +134,7 @@ type DeadlineChan[T any] struct {
 // If the deadline is exceeded, Cancel is called, or Close is called,
 // err will be set to a relevant error. Always check that err is nil before using b
 func (d *DeadlineChan[T]) Recv() (b T, err error) {
+	verifYield("dc.recv.poll")
 	// Return buffered data even if the channel is canceled
 	select {
 	case b = <-d.C:
@@ -142,19 +143,25 @@ func (d *DeadlineChan[T]) Recv() (b T, err error) {
 		break
 	}
 
+	verifYield("dc.recv.closed")
 	if d.closed.Load() {
 		err = io.EOF
 		return
 	}
 
+	verifYield("dc.recv.done")
 	errChan := d.deadline.Done()
+	verifYield("dc.recv.pollerr")
 	select {
 	case <-errChan:
+		verifYield("dc.recv.err")
 		err = d.deadline.Err()
 		return
 	default:
+		verifYield("dc.recv.select")
 		select {
 		case <-errChan:
+			verifYield("dc.recv.err")
 			err = d.deadline.Err()
 			return
 		case b = <-d.C:
@@ -167,21 +174,28 @@ func (d *DeadlineChan[T]) Recv() (b T, err error) {
 // If the deadline is exceeded, Cancel is called, or Close is called,
 // err will not be nil.
 func (d *DeadlineChan[T]) Send(b T) (err error) {
+	verifYield("dc.send.lock")
 	d.m.Lock()
 	defer d.m.Unlock()
 
+	verifYield("dc.send.closed")
 	if d.closed.Load() {
 		return io.EOF
 	}
 
+	verifYield("dc.send.done")
 	errChan := d.deadline.Done()
+	verifYield("dc.send.pollerr")
 	select {
 	case <-errChan:
+		verifYield("dc.send.err")
 		err = d.deadline.Err()
 		return
 	default:
+		verifYield("dc.send.select")
 		select {
 		case <-errChan:
+			verifYield("dc.send.err")
 			err = d.deadline.Err()
 			return
 		case d.C <- b:
@@ -192,18 +206,22 @@ func (d *DeadlineChan[T]) Send(b T) (err error) {
 
 // SetDeadline sets a time at which calls to Send and Recv will timeout
 func (d *DeadlineChan[T]) SetDeadline(t time.Time) error {
+	verifYield("dc.setdl.closed")
 	if d.closed.Load() {
 		return io.EOF
 	}
+	verifYield("dc.setdl.set")
 	return d.deadline.SetDeadline(t)
 }
 
 // Cancel cancels pending calls to Send and Recv and causes them to return err
 // TODO(hosono) when should Recv return buffered data
 func (d *DeadlineChan[T]) Cancel(err error) error {
+	verifYield("dc.cancel.closed")
 	if d.closed.Load() {
 		return io.EOF
 	}
+	verifYield("dc.cancel.cancel")
 	d.deadline.Cancel(err)
 	return nil
 }
@@ -211,13 +229,17 @@ func (d *DeadlineChan[T]) Cancel(err error) error {
 // Close cancels pending calls to Send and Recv. Those calls will return
 // io.EOF rather than os.ErrDeadlineExceeded even after the deadline has expired
 func (d *DeadlineChan[T]) Close() error {
+	verifYield("dc.close.lock")
 	d.m.Lock()
 	defer d.m.Unlock()
 
+	verifYield("dc.close.closed")
 	if d.closed.Load() {
 		return io.EOF
 	}
+	verifYield("dc.close.store")
 	d.closed.Store(true)
+	verifYield("dc.close.cancel")
 	d.deadline.Cancel(io.EOF)
 	return nil
 }
